@@ -316,6 +316,37 @@ fn gc_sweep_blocked_mid_table() {
 #[cfg(kani)]
 #[kani::proof]
 #[kani::unwind(22)]
+fn gc_pending_modules_protocol() {
+  // every module announced as changed keeps the sweep gate closed until it has been popped itself: popping one
+  // pending module must not forget the others.  (Two slots only: each swept slot costs CBMC about 30 s.)
+  let kinds = [Kind::Temp(false), Kind::Temp(true)];
+  let mut heap = mk_heap(&kinds, 0, false);
+  let a: usize = kani::any();
+  let b: usize = kani::any();
+  kani::assume(a != b);
+  heap.add_unmarked_module_reference(ModuleReference(a));
+  heap.add_unmarked_module_reference(ModuleReference(b));
+  heap.add_unmarked_module_reference(ModuleReference(a)); // announced twice: still one pending entry
+  let first = heap.pop_unmarked_module_reference();
+  assert!(first == Some(ModuleReference(a)) || first == Some(ModuleReference(b)));
+  heap.sweep(2);
+  assert!(kind_of(&heap, 0) == Kind::Temp(false)); // gate closed: nothing reclaimed, no mark cleared
+  assert!(kind_of(&heap, 1) == Kind::Temp(true));
+  assert!(heap.interned_string.get(S[0]) == Some(&0));
+  let second = heap.pop_unmarked_module_reference();
+  assert!(second == Some(ModuleReference(a)) || second == Some(ModuleReference(b)));
+  assert!(second != first);
+  assert!(heap.pop_unmarked_module_reference().is_none());
+  heap.sweep(2);
+  assert!(kind_of(&heap, 0) == Kind::Dead); // gate open now
+  assert!(kind_of(&heap, 1) == Kind::Temp(false));
+  kani::cover!(true);
+  std::mem::forget(heap);
+}
+
+#[cfg(kani)]
+#[kani::proof]
+#[kani::unwind(22)]
 fn gc_sweep_rest_with_huge_work_unit() {
   // "sweep whatever is left": a work unit of usize::MAX from the middle of the table finishes the pass
   // (sweep_index + work_unit must not overflow)
